@@ -872,6 +872,33 @@ func walkCoverage(c *Ctx, r *RuleResult, m *walkerModel) {
 						}
 					}
 				}
+				// the loop itself: once the value's own Kind has selected this branch, nothing but the emptiness of
+				// the list may keep the loop from running (an annotation such as ExpectedType may be nil for custom scalars)
+				var entry *ssa.BasicBlock
+				for d := in2.Idom(); d != nil && entry == nil; d = d.Idom() {
+					ifi, ok := d.Instrs[len(d.Instrs)-1].(*ssa.If)
+					if !ok {
+						continue
+					}
+					cd := normCond(Cond{V: ifi.Cond, True: true})
+					bo, ok := cd.V.(*ssa.BinOp)
+					if !ok || !(loadOfField(bo.X, "Value", "Kind") || loadOfField(bo.Y, "Value", "Kind")) {
+						continue
+					}
+					for _, sc := range d.Succs {
+						if sc.Dominates(in2) {
+							entry = sc
+						}
+					}
+				}
+				if entry != nil && entry != in2 {
+					rr := reachAvoiding(entry, func(b *ssa.BasicBlock) bool { return b == in2 }, nil)
+					for t := range targets {
+						if rr[t] {
+							skippable = true
+						}
+					}
+				}
 			}
 		} else if inner != nil && (ch.viaElem || ch.node[0] == "VariableDefinition") {
 			for _, s := range inner.Succs {
